@@ -157,6 +157,9 @@ class C03(Property):
         ops = [("new", 3), ("import", 4), ("foreign_relion", 3), ("foreign_df", 2), ("relion2emmotl", 1), ("relion2stopgap", 1)]
         if motls:
             ops += [("export_df", 4), ("write", 4), ("emmotl2relion", 2), ("stopgap_roundtrip", 1)]
+        imported = sorted(h for h in motls if hs[h].get("imported"))
+        if imported:
+            ops += [("export_original", 5)]
         if tables:
             ops += [("import_df", 3)]
         op = rng.weighted(ops)
@@ -181,6 +184,8 @@ class C03(Property):
         if op == "import_df":
             return {"op": "import_df", "sess": sess, "src": rng.pick(tables), "h": self.new_handle(world),
                     "hint_version": rng.chance(0.5)}
+        if op == "export_original":
+            return {"op": "export_original", "sess": sess, "src": rng.pick(imported), "reorder": rng.chance(0.6)}
         if op == "foreign_relion":
             n = rng.randrange(1, cfg["max_rows"] + 1)
             return {"op": "foreign_relion", "path": rng.pick(PATHS), "version": v, "parts": gen_particles(rng, n),
@@ -443,6 +448,56 @@ class C03(Property):
                            "content": self.content_from_parts(h["parts"], v, px, False, False)}
         return []
 
+    def op_export_original(self, world, step):
+        """a list imported from a RELION file, possibly re-ordered since (drop_duplicates sorts by subtomogram
+        number), exported with the entries of the original file: every row must still pair a particle's pose
+        with *its own* subtomogram / tomogram name"""
+        sess = world.session(step["sess"])
+        if step["src"] not in sess or not sess[step["src"]].get("imported"):
+            raise Skip()
+        h = sess[step["src"]]
+        obj = h["obj"]
+        if step["reorder"]:
+            out = world.call(step["sess"], obj.drop_duplicates)
+            if not out.ok:
+                raise Violation("export_raised", "drop_duplicates:%s" % out.describe(), "drop_duplicates raised %r" % (out.exc,))
+            order = sorted(range(len(h["parts"])), key=lambda i: h["parts"][i]["subtomo"])
+            if order != list(range(len(order))):
+                world.probes["reordered_before_original_export"] += 1
+            h["parts"] = [h["parts"][i] for i in order]
+        out = world.call(step["sess"], obj.create_relion_df, use_original_entries=True)
+        world.note("export_original -> %s" % out.describe())
+        if not out.ok:
+            raise Violation("export_raised", "export_original:%s" % out.describe(),
+                            "create_relion_df(use_original_entries=True) of an imported list raised %r\n%s" % (out.exc, out.tb))
+        world.oracle()
+        rdf = out.value
+        v = h["version"] if h["version"] is not None else 3.1
+        _tn, sub_name, _on, _spec = names_for(v)
+        n = len(h["parts"])
+        if len(rdf) != n:
+            raise Violation("export_rows", "nrows", "export with original entries: %d rows for %d particles" % (len(rdf), n))
+        for i, p in enumerate(h["parts"]):
+            want = pos_of(p)
+            for k, ax in enumerate("XYZ"):
+                g = float(rdf["rlnCoordinate" + ax].iloc[i])
+                if not abs(g - want[k]) <= 1e-6 * max(1.0, abs(want[k])):
+                    raise Violation("export_coordinate", "original_entries:coord", "export with original entries: row %d rlnCoordinate%s=%r, particle position %r" % (i, ax, g, want[k]))
+            if sub_name in rdf.columns:
+                name = rdf[sub_name].iloc[i]
+                try:
+                    num = float(name)
+                except (TypeError, ValueError):
+                    comp = str(name).rsplit("/", 1)[-1]
+                    nums = re.findall(r"\d+", comp)
+                    num = float(comp) if v >= 4.0 else float(nums[1])
+                if num != float(p.get("geom3", p["subtomo"])):
+                    raise Violation("export_subtomo", "original_entries:identity",
+                                    "export with original entries: row %d carries the pose of subtomogram %r but the name %r (subtomogram %r)" % (
+                                        i, p.get("geom3", p["subtomo"]), name, num))
+        world.stats["acks"] += 1
+        return []
+
     def op_write(self, world, step):
         sess = world.session(step["sess"])
         if step["src"] not in sess or sess[step["src"]]["kind"] != "rln":
@@ -539,7 +594,8 @@ class C03(Property):
                 m = np.column_stack([df[c].to_numpy(dtype=float) for c in MOTL_COLS]).reshape(len(df), 20)
                 sess[step["h"]] = {"kind": "rln", "obj": out.value, "parts": matrix_to_parts(m),
                                    "version": float(out.value.version) if out.value.version is not None else None,
-                                   "px": None, "binning": None, "px_scalar": np.ndim(out.value.pixel_size) == 0}
+                                   "px": None, "binning": None, "px_scalar": np.ndim(out.value.pixel_size) == 0,
+                                   "imported": True}
                 px = out.value.pixel_size
                 if isinstance(px, (int, float)):
                     sess[step["h"]]["px"] = float(px)
